@@ -22,6 +22,7 @@ def parseNtfn (s : String) : Ntfn :=
   | ["C", a, b, c] => .conn (nat! a) (nat! b) (nat! c)
   | ["C", a, b, c, _] => .conn (nat! a) (nat! b) (nat! c)
   | ["D", a, b, c] => .disc (nat! a) (nat! b) (nat! c)
+  | ["D", a, b, c, _] => .disc (nat! a) (nat! b) (nat! c)
   | _ => .conn 999999 0 0
 
 structure Row where
@@ -79,6 +80,7 @@ def parseDump (obs : String) : Dump :=
     memAt := (get fs "ntf").map (fun x => match x.splitOn ":" with | [_, _, _, _, m] => nat! m | _ => 0),
     pres := get1 fs "pres", pbest := nat! (get1 fs "pbest"), pbl := (get fs "pbl").map parseNode,
     pseen := nat! (get1 fs "pseen"),
+    storedAt := (get fs "ntf").map (fun x => match x.splitOn ":" with | ["D", _, _, _, st] => st == "1" | _ => false),
     pre := (get fs "pre").map (fun x => match x.splitOn ":" with | [v, h, i] => (v == "1", nat! h, nat! i) | _ => (false, 0, 0)) }
 
 def parseEv (ws : List String) : Option Ev :=
@@ -91,6 +93,10 @@ def parseEv (ws : List String) : Option Ev :=
   | ["cfwrite", s, n, bad] => some (.cfWrite (nat! s) (nat! n) (bad == "0"))
   | ["cfwrite", s, n, bad, _, _] => some (.cfWrite (nat! s) (nat! n) (bad == "0"))
   | ["backlog", h] => some (.backlog (nat! h))
+  | "headersfw" :: p :: rest => some (.headersFailWrite (nat! p) ((bracket rest).1.map nat!))
+  | "importreset" :: rest =>
+    let (ids, tl) := bracket rest
+    some (.importReset (ids.map nat!) (nat! (tl.headD "0")))
   | _ => none
 
 /-- what the model says the harness should have read -/
@@ -132,7 +138,8 @@ def runCase : CaseFn := fun c => Id.run do
     let ws := words op
     let d := parseDump obs
     let fail (pid : String) (f : Fail) : String := s!"ORACLE-FAIL {pid} case {c.num} line {ln}: shape={f.1} {f.2} [{op}]"
-    if d.res == "panic" || d.res == "hang" then
+    -- (a reorganisation whose rollback fails panics by design: "Rollback failed")
+    if (d.res == "panic" && ws.head? != some "headersfrb") || d.res == "hang" then
       out := out.push s!"ORACLE-FAIL C01 case {c.num} line {ln}: shape=handler-{d.res} the handler did not return normally [{op}]"
     -- C01 on every dump
     for f in c01 cfg d do out := out.push (fail "C01" f)
@@ -141,6 +148,17 @@ def runCase : CaseFn := fun c => Id.run do
         if let some txt := firstDiff (dumpOfState st {}) d then
           for pid in ["C01", "C02", "C19"] do out := out.push s!"DIFF {pid} case {c.num} line {ln}: init {txt}"
           diverged := true
+    else if ws.head? == some "headersfrb" then
+      -- a reorganisation in which one RollbackLastBlock was made to fail: oracle only, the case ends here
+      let p := nat! (ws.getD 1 "0")
+      let ids := (bracket (ws.drop 2)).1.map nat!
+      if dumpGood cfg prev then
+        for f in c19DiscStored ids d do out := out.push (fail "C19" f)
+        let discs := d.ntf.filter (fun n => match n with | .disc .. => true | _ => false)
+        let k := commonLen prev.byh d.byh
+        if discReplay cfg.tbl ids prev.byh discs != some (prev.byh.take k) then
+          out := out.push (fail "C19" ("disconnected-but-still-stored", s!"the disconnected events {repr discs} do not lead from {prev.byh} to what is still stored {d.byh} (peer {p})"))
+      diverged := true
     else if ws.head? == some "lagreorg" then
       -- a reorganisation + the new branch's filter headers handled with a slow sink, then a
       -- backlog request: `lagreorg p [ids] stop n h`
@@ -186,9 +204,15 @@ def runCase : CaseFn := fun c => Id.run do
           for f in c19Event cfg.tbl ev prev d do out := out.push (fail "C19" f)
           for f in c19TipCovers d do out := out.push (fail "C19" f)
           for f in c19HandlerAhead d do out := out.push (fail "C19" f)
+          for f in c19DiscStored (match ev with | .headers _ hs => hs | _ => []) d do out := out.push (fail "C19" f)
           match ws with
           | ["cfwrite", _, _, _, k, h] => for f in c19Probe (nat! k) (nat! h) d do out := out.push (fail "C19" f)
           | _ => pure ()
+        -- (an import happens before the block manager serves subscribers: imported filter headers
+        -- are not announced, existing test subscribers end here - `alignedEv` in the theorem)
+        match ev with
+        | .importReset .. => subs := []
+        | _ => pure ()
         -- subscribers: replay of backlog + later events reproduces the committed chain
         let mut subs' : List (Nat × List Nat) := []
         for (at_, view) in subs do
